@@ -17,7 +17,7 @@ CHECKS = {
                 technique="bounded exhaustive enumeration of root-level construction histories on the real sat_core, truth-table oracle",
                 text="All argument lists up to length 3-4 over 2-4 variables (duplicates, complements, root-decided literals), all root "
                      "pre-assignments, one- and two-call histories (cache hit/miss, amo-then-exo, ...), product encoding with 4-6 "
-                     "distinct variables; every construct is re-judged after every later step against the full truth table of the "
+                     "distinct variables and incomplete grids of 5..8 (thorough 10) variables in both orders with every sign pattern; every construct is re-judged after every later step against the full truth table of the "
                      "clause database. Exhaustive inside these bounds; longer lists only through the distinct-variable family.",
                 note="Trusted: engine/tt.h bitset truth tables; clause database read with -fno-access-control."),
     "C07": dict(engine="netmc", category="model_checking", design_ref="DESIGN.md §4 C07",
@@ -36,14 +36,14 @@ CHECKS = {
                 note="Comparison is skipped (and counted) when the fresh network derives extra literals. lra.value() is not compared (history dependent by design)."),
     "C09": dict(engine="netmc", category="model_checking", design_ref="DESIGN.md §4 C09",
                 technique="stateless exhaustive exploration of assert/negate/retract histories on lra_theory; Fourier-Motzkin reference with strictness",
-                text="All 3-atom networks from a pool of 32 (thorough 96) linear atoms over two reals (shared sub-expressions), all "
+                text="All 3-atom networks from a pool of 32 (thorough 96) linear atoms over two reals (shared sub-expressions) and all 4-atom networks from a 12-atom pool over x, y, x-y, all "
                      "assume/pop/next histories up to depth 4 (5): feasibility, values, tableau rows, bounds vs exact projections and "
                      "validity of every conflict/lemma are decided by Fourier-Motzkin on each history.",
                 note="Two real variables, coefficients in {-1,0,1,2}; termination of pivoting is only covered through the per-case watchdog."),
     "C10": dict(engine="netmc", category="model_checking", design_ref="DESIGN.md §4 C10",
                 technique="stateless exhaustive exploration of assert/negate/retract histories on idl_theory and rdl_theory; Floyd-Warshall reference",
                 text="All interacting 3-atom networks over 4 time points (matrix growth included) for both theories, all assume/pop/next "
-                     "histories up to depth 4 (5): the whole distance matrix must equal the Floyd-Warshall closure, conflicts iff "
+                     "histories up to depth 4 (5), plus 120 six-atom relaxation networks with every binary clause (decisions on positive literals + pop, depth 5 (6)): the whole distance matrix must equal the Floyd-Warshall closure, conflicts iff "
                      "negative cycle, decided atoms propagated, explanations valid.",
                 note="Integer constants -2..2, half-integers for RDL; +-inf with a residual infinitesimal part is treated as +-inf."),
     "C14": dict(engine="netmc", category="model_checking", design_ref="DESIGN.md §4 C14",
@@ -55,7 +55,7 @@ CHECKS = {
     "C11": dict(engine="relmc", category="exploration", design_ref="DESIGN.md §4 C11",
                 technique="bounded exhaustive enumeration of relation requests x preludes x model grid on the real lra_theory; per grid point a complete search through the API decides whether the literal can be true/false",
                 text="Every relation between every pair of a 12-16 expression pool (cancelling, repeated, scaled, basic variables), as first "
-                     "or second request after 8 kinds of root preludes, is judged at every point of a 5x5 rational grid: the literal must "
+                     "or second request after 10 kinds of root preludes (two of them with a slack variable whose tableau row has a constant term), is judged at every point of a 5x5 rational grid: the literal must "
                      "be satisfiable iff the relation holds there and refutable iff it does not; no grid solution may be lost and root "
                      "bounds may not change by requesting.",
                 note="Two real variables; grid values {-1,0,1/2,1,2}; relies on exact rational evaluation of the relation at the point."),
@@ -92,21 +92,21 @@ CHECKS = {
                 note="Two-variable linear fragment; timeouts are undecided."),
     "C04": dict(engine="progrun", category="exploration", design_ref="DESIGN.md §4 C04",
                 technique="bounded exhaustive enumeration of timeline programs (all pairs / a fixed slice of triples of atom templates) solved by the real solver in several configurations; exact validation of the reported times and extracted timelines",
-                text="Every pair (and a slice of triples) of state-variable atom templates - facts/goals, fixed or variable instance, free/constant/chained/zero-length times - on 1-2 instances: no two active atoms on one instance intersect, every active atom has a decided instance, extracted timeline segments hold at most one atom; 2 (8) build configurations.",
+                text="Every pair (and a slice of triples) of state-variable atom templates - facts/goals, fixed or variable instance, free/constant/chained/zero-length/fully pinned times - on 1-2 instances, and `a0; { a1 } or { a2 }` choice-point programs: no two active atoms on one instance intersect, every active atom has a decided instance, extracted timeline segments hold at most one atom; 2 (8) build configurations.",
                 note="[start,end) semantics; at most 3 atoms and 2 instances."),
     "C05": dict(engine="progrun", category="exploration", design_ref="DESIGN.md §4 C05",
                 technique="bounded exhaustive enumeration of timeline programs (all pairs / a fixed slice of triples of atom templates) solved by the real solver in several configurations; exact validation of the reported times and extracted timelines",
-                text="Every pair (and a slice of triples) of Use facts with amounts 1..3, durations 0/2/5, fixed/free start, fixed/variable resource on resources of capacity 1..3: at every pulse the active uses sum to at most the capacity and the extracted usage per segment equals that sum; 2 (8) configurations.",
+                text="Every pair (and a slice of triples) of Use facts with amounts 1..3, durations 0/2/5, fixed/free/fully pinned start, fixed/variable resource on resources of capacity 1..3, and `u0; { u1 } or { u2 }` choice-point programs: at every pulse the active uses sum to at most the capacity and the extracted usage per segment equals that sum; 2 (8) configurations.",
                 note="At most 3 uses and 2 resources; integer amounts."),
     "C06": dict(engine="progrun", category="exploration", design_ref="DESIGN.md §4 C06",
                 technique="bounded exhaustive enumeration of timeline programs (all pairs / a fixed slice of triples of atom templates) solved by the real solver in several configurations; exact validation of the reported times and extracted timelines",
-                text="Facts and goals on plain Interval/Impulse predicates and on StateVariable, ReusableResource, ConsumableResource and Agent predicates, with optional bounds, plus every atom of the sv/rr families: origin <= start <= end <= horizon, duration = end - start >= 0, origin <= at <= horizon; 2 (8) configurations.",
+                text="Facts and goals on plain Interval/Impulse predicates and on StateVariable, ReusableResource, ConsumableResource and Agent predicates, with optional bounds, facts created inside the rule of a goal (second fact of a body, fact in the body of an Interval/Impulse goal), plus every atom of the sv/rr families: origin <= start <= end <= horizon, duration = end - start >= 0, origin <= at <= horizon; 2 (8) configurations.",
                 note="Atoms created through rules are covered by the rule family of C03 when registered."),
     "C03": dict(engine="progrun", category="exploration", design_ref="DESIGN.md §4 C03",
                 technique="bounded exhaustive enumeration of goal/fact/rule programs (unification, recursion, disjunction) solved by the real solver; validation of the causal structure read from the live solver",
-                text="All combinations of rule-body shapes, facts and goals (plus recursive and mutually recursive predicates and the timeline "
+                text="All combinations of rule-body shapes, facts and goals (plus recursive and mutually recursive predicates, 60 loop-temptation programs with two top-level goals and a costed switch of the base case, and the timeline "
                      "families) in 2 (8) configurations: every plan atom is active or unified with an active atom of the same predicate with "
-                     "equal arguments, active goals have their rule's flaws in the plan, causal support is acyclic.",
+                     "equal arguments, active goals have their rule's flaws in the plan, and the graph parent -> sub-atom (followed through disjunctions and choices inside rules) + unified atom -> target is acyclic.",
                 note="Recursion depth <= 4, at most 2 facts and 2 top-level goals."),
     "C17": dict(engine="progrun", category="exploration", design_ref="DESIGN.md §4 C17",
                 technique="bounded exhaustive enumeration of class hierarchies x instance sets x declared variables x constraints, solved by the real solver; domains read right after read() and choices after solve()",
@@ -124,11 +124,11 @@ CHECKS = {
                 note="Bounds per scenario/pool are listed in the evidence (levels_completed); race-freedom rests on a dynamic detector over sampled free runs, as a serialising scheduler cannot see races."),
     "C19": dict(engine="execmc", category="model_checking", design_ref="DESIGN.md §4 C19",
                 technique="deviation-bounded exhaustive enumeration of environment answers (delays, failures) driving the real executor tick by tick, with monitors on the callback stream and on the adapted plan",
-                text="Six solved plans x two tick sizes; every execution with at most 2 (3) non-default environment answers (dont_start_yet / "
+                text="Ten solved plans x two (thorough three) tick sizes; every execution with at most 3 (thorough 4, then 5 while the deadline allows) non-default environment answers (dont_start_yet / "
                      "dont_end_yet with delay 1 or 2 at every starting/ending callback, failure of a running atom before every tick) is run to "
                      "a fixed horizon on a fresh solver+executor; monitors check time advance, exactly-once start/end in order and not before "
-                     "the planned time, no start in a delaying tick, validity of the adapted plan and immobility of started/ended atoms.",
-                note="Small plans (<= 3 atoms); delays of 1-2 units; one request per callback."),
+                     "the planned time, no start/end in a delaying tick without a new notification, validity of the adapted plan (well-formed, no overlap, resource capacity) and immobility of started/ended atoms.",
+                note="Small plans (<= 4 atoms); delays of 1-2 units; one request per callback."),
 }
 
 PENDING_REASON = "check not built yet in this round (planned, see DESIGN.md §4); not claimed until its quick and thorough tiers have run to completion on the unchanged tree"
